@@ -161,6 +161,13 @@ class Lib:
         raise Unsupported('ndarray method without contract: %s (line %s)' % (name, cx.line()))
       ex.externals_used.add('ndarray.' + name)
       return self._norm(h(cx, recv, *args, **kwargs), cx)
+    from .libspec_shape import VExtObj
+    if isinstance(recv, VExtObj):
+      h = self.extobj_methods.get((recv.kind, name))
+      if h is None:
+        raise Unsupported('method %s of %s without contract (line %s)' % (name, recv.kind, cx.line()))
+      ex.externals_used.add('%s.%s' % (recv.kind, name))
+      return self._norm(h(cx, recv, *args, **kwargs), cx)
     if isinstance(recv, VStr):
       if name in ('format', 'join'):
         return [(p, VOpaque('msg'))]
